@@ -325,7 +325,8 @@ impl<'t, D: Doc> Traversal<'t, D> for Post<'t, D> {
       // because we bump match_depth in `step_up` during traversal.
       debug_assert!(depth >= self.match_depth);
       self.match_depth = depth;
-      return;
+      // no early return: if the match was a last child the cursor has already
+      // stepped up to its parent, which overlaps the match and must be skipped too
     }
     // found new nodes to explore in trace_down, skip calibration.
     if self.current_depth >= self.match_depth {
